@@ -176,7 +176,17 @@ def build_file(ids, rng, style=None, encs=None, defect=None, defect_at=None, unk
                 if actual:
                     parts = raw.split(nlb)
                     lines = [p + nlb for p in parts[:-1]] + ([parts[-1]] if parts[-1] else [])
-                    raw = b''.join(b' ' * actual + l for l in lines)
+                    mode = rng.choice(['uniform', 'uniform', 'uniform', 'trim_blank', 'first_flush', 'ragged'])
+                    def _ind(k, l):
+                        # foreign producers: blank lines left without indentation, a flush-left first line, ragged lines
+                        if mode == 'trim_blank' and not l.strip(b' \t\r\n\x00'):
+                            return 0
+                        if mode == 'first_flush' and k == 0:
+                            return 0
+                        if mode == 'ragged':
+                            return rng.randint(0, actual)
+                        return actual
+                    raw = b''.join(b' ' * _ind(k, l) + l for k, l in enumerate(lines))
                 content = raw
                 if indent or rng.random() < 0.5:
                     opts.append(('indent', indent))
